@@ -220,32 +220,44 @@ class Cong:
     analysis: every zs operand is either non-zero (then it is the same value on both sides) or one of the four sign combinations of two zeros; the other operands become one fresh constant each."""
     ZP = {32: z3.FPVal(0.0, FSORT[32]), 64: z3.FPVal(0.0, FSORT[64])}
     def __init__(s, S, hyps, per_query=10.0, budget=60.0):
-        s.S = S; s.hyps = list(hyps); s.memo = {}; s.per = per_query; s.left = budget; s.lemmas = 0; s.time = 0.0; s.keep = []; s.cases = {}
+        s.S = S; s.hyps = list(hyps); s.memo = {}; s.per = per_query; s.left = budget; s.lemmas = 0; s.time = 0.0; s.keep = []; s.cases = {}; s.idm = {}
     def eq(s, x, y): return s.rel(x, y) == 'eq'
+    def ids(s, t):
+        k = t.get_id()
+        if k not in s.idm: s.idm[k] = frozenset(subterms(t))
+        return s.idm[k]
     def rel(s, x, y):
         if x.eq(y): return 'eq'
         k = (x.get_id(), y.get_id())
         if k in s.memo: return s.memo[k]
         s.keep.append((x, y)); r = None
         if z3.is_app(x) and z3.is_app(y) and x.num_args() > 0 and x.num_args() == y.num_args() and x.decl().eq(y.decl()):
-            cs = []
-            for a, b in zip(x.children(), y.children()):
-                c = s.rel(a, b); cs.append(c)
-                if c is None: break
-            if all(c == 'eq' for c in cs): r = 'eq'
-            elif all(c is not None for c in cs): r = s.node_cases(x, y, cs)
+            xc, yc = x.children(), y.children(); alts = [yc]
+            if x.decl().kind() in (z3.Z3_OP_FPA_ADD, z3.Z3_OP_FPA_MUL):       # commutative: also the crossed alignment, the one sharing more subterms first
+                alts.append([yc[0], yc[2], yc[1]])
+                sc = [sum(len(s.ids(a) & s.ids(b)) for a, b in zip(xc, al)) for al in alts]
+                if sc[1] > sc[0]: alts.reverse()
+            for al in alts:
+                cs = []
+                for a, b in zip(xc, al):
+                    c = s.rel(a, b); cs.append(c)
+                    if c is None: break
+                if all(c == 'eq' for c in cs): r = 'eq'
+                elif all(c is not None for c in cs): r = s.node_cases(x.decl(), xc, al, cs)
+                if r is not None: break
         if r is None: r = s.leaf(x, y)
         s.memo[k] = r; return r
     def solve(s, goal, hyps, to=None):
-        if s.left <= 0: return False
+        """'unsat' | 'sat' | 'unknown'"""
+        if s.left <= 0: return 'unknown'
         g = z3.simplify(goal)
-        if z3.is_true(g): return True
-        if z3.is_false(g): return False
+        if z3.is_true(g): return 'unsat'
+        if z3.is_false(g) and not hyps: return 'sat'
         asserts = _cone_of_influence(list(hyps) + [z3.Not(goal)])
         to = min(to or s.per, max(1.0, s.left)); t0 = time.time()
         sv = z3.Solver(); sv.set('timeout', int(to * 1000)); sv.add(*asserts); r = str(sv.check()); dt = time.time() - t0
         s.left -= dt; s.time += dt; s.lemmas += 1
-        return r == 'unsat'
+        return r
     def leaf(s, x, y):
         if x.sort() != y.sort(): return None
         sy = subterms(y); sub = []; st = [x]; seen = set()
@@ -259,13 +271,14 @@ class Cong:
         hy = s.hyps
         if sub:
             x = z3.substitute(x, *sub); y = z3.substitute(y, *sub); hy = [z3.substitute(h, *sub) for h in hy]
-        if s.solve(x == y, hy): return 'eq'
-        if z3.is_fp(x) and s.solve(z3.Or(x == y, z3.And(z3.fpIsZero(x), z3.fpIsZero(y))), hy): return 'zs'
+        r = s.solve(x == y, hy)
+        if r == 'unsat': return 'eq'
+        if r == 'sat' and z3.is_fp(x) and s.solve(z3.Or(x == y, z3.And(z3.fpIsZero(x), z3.fpIsZero(y))), hy) == 'unsat': return 'zs'
         return None
-    def node_cases(s, x, y, cs):
+    def node_cases(s, d, xc, yc, cs):
         """one-operator case analysis (hypothesis free; cached per operator and operand pattern)"""
-        d = x.decl(); pairs = []; pat = []
-        for a, b, c in zip(x.children(), y.children(), cs):
+        pairs = []; pat = []
+        for a, b, c in zip(xc, yc, cs):
             if c == 'zs':
                 key = (a.get_id(), b.get_id())
                 if key not in pairs: pairs.append(key)
@@ -292,8 +305,8 @@ class Cong:
                 else:
                     v = z3.FreshConst(p[1], 'op'); aa.append(v); bb.append(v)
             gx = d(*aa); gy = d(*bb)
-            if s.solve(gx == gy, hy, 5.0): continue
-            if z3.is_fp(gx) and s.solve(z3.Or(gx == gy, z3.And(z3.fpIsZero(gx), z3.fpIsZero(gy))), hy, 5.0): res = 'zs'; continue
+            if s.solve(gx == gy, hy, 5.0) == 'unsat': continue
+            if z3.is_fp(gx) and s.solve(z3.Or(gx == gy, z3.And(z3.fpIsZero(gx), z3.fpIsZero(gy))), hy, 5.0) == 'unsat': res = 'zs'; continue
             res = None; break
         s.cases[ck] = res; return res
 
@@ -406,10 +419,10 @@ def _dot3_assoc(res, i):
     """inputs on which the two summation orders lead to a different decision"""
     I = res.ins
     if res.fn.name.startswith('face'):
-        d1, d2 = _dots3(I[2], I[1]); return z3.fpLT(d1, FPV(0.0)) != z3.fpLT(d2, FPV(0.0))
+        d1, d2 = _dots3(I[2], I[1]); return canon(z3.simplify(z3.fpLT(d1, FPV(0.0)))) != canon(z3.simplify(z3.fpLT(d2, FPV(0.0))))
     d1, d2 = _dots3(I[1], I[0]); eta = fpof(I[2][0]); one = FPV(1.0)
     def k(d): return z3.fpSub(RNE, one, z3.fpMul(RNE, z3.fpMul(RNE, eta, eta), z3.fpSub(RNE, one, z3.fpMul(RNE, d, d))))
-    return z3.fpLT(k(d1), FPV(0.0)) != z3.fpLT(k(d2), FPV(0.0))
+    return canon(z3.simplify(z3.fpLT(k(d1), FPV(0.0)))) != canon(z3.simplify(z3.fpLT(k(d2), FPV(0.0))))
 REGIONS = {'round_tie': _round_tie, 'sse2_round_region': _sse2_region, 'dot3_assoc': _dot3_assoc}
 
 # ----------------------------------------------------------------------------- the differential check of one wrapper in one SIMD build
@@ -421,6 +434,24 @@ def _native_differs(c, x, y, tol=None):
         if fx != fx and fy != fy: return False
         if tol is not None and fx == fx and fy == fy and abs(fx - fy) <= tol * max(1.0, abs(fx), abs(fy)): return False
     return True
+
+def vname(on, variant):
+    """c03.<isa>.<fn>.<idx> -> c03.<isa>.<fn>.<variant>.<idx> (known-finding regions take the lane from the trailing number)"""
+    h, _, t = on.rpartition('.'); return '%s.%s.%s' % (h, variant, t)
+def prop_implied(hyps, goal):
+    """goal follows from hyps by propositional reasoning alone (every theory atom opaque)"""
+    m = {}; keep = []
+    def ab(t):
+        k = t.get_id()
+        if k in m: return m[k]
+        dk = t.decl().kind(); ch = t.children()
+        if dk in (z3.Z3_OP_AND, z3.Z3_OP_OR, z3.Z3_OP_NOT, z3.Z3_OP_IMPLIES, z3.Z3_OP_XOR) or (dk in (z3.Z3_OP_EQ, z3.Z3_OP_DISTINCT, z3.Z3_OP_ITE, z3.Z3_OP_IFF) and all(z3.is_bool(c) for c in ch)):
+            r = t.decl()(*[ab(c) for c in ch])
+        elif z3.is_true(t) or z3.is_false(t): r = t
+        else: r = z3.FreshConst(z3.BoolSort(), 'at')
+        m[k] = r; keep.append(t); return r
+    sv = z3.Solver(); sv.set('timeout', 5000); sv.add(*[ab(h) for h in hyps if z3.is_bool(h)]); sv.add(z3.Not(ab(goal)))
+    return sv.check() == z3.unsat
 
 class Pair:
     """both builds of one wrapper executed on shared symbolic inputs"""
@@ -450,12 +481,13 @@ class Pair:
         s.elems = []
         for oi, ((c, n), va, vb) in enumerate(zip(s.fa.outs, s.ra.outs, s.rb.outs)):
             for i, (a, b) in enumerate(zip(va, vb)):
-                on = '%s.o%d_%d' % (s.nm, oi, i) if len(s.fa.outs) > 1 else '%s.%d' % (s.nm, i)
-                s.elems.append((oi, i, c, on, a, b))
+                ix = 'o%d_%d' % (oi, i) if len(s.fa.outs) > 1 else '%d' % i
+                s.elems.append((oi, i, c, s.nm + '.' + ix, a, b))
     def terms(s, c, a, b):
-        if isinstance(a, FV): return canon(a.fp), canon(b.fp)
-        if ct_kind(c) == 'b': return canon(a & 1), canon(b & 1)
-        return canon(a), canon(b)
+        # both sides through the z3 simplifier first (the executor already simplifies at bitcasts: x - y becomes x + (-y) there), then operand order
+        if isinstance(a, FV): return canon(z3.simplify(a.fp)), canon(z3.simplify(b.fp))
+        if ct_kind(c) == 'b': return canon(z3.simplify(a & 1)), canon(z3.simplify(b & 1))
+        return canon(z3.simplify(a)), canon(z3.simplify(b))
     def replayer(s, oi, i, tol=None):
         def replay(m):
             vals = s.S._model_inputs(m, s.ra); return s.replay_vals(vals, oi, i, tol)
@@ -505,14 +537,20 @@ class Pair:
         s.probe(oname, regs, [z3.Not(goal)], oi, i, min(timeout, 40))
         hy = s.hyps + [z3.Not(reg) for _, _, reg in regs]
         on2 = oname + ('.outside-known' if regs else ''); b2 = s.binfo + ' ' + what + ('; excluding known-finding regions ' + ','.join(k for k, _, _ in regs) if regs else '')
-        if z3.is_true(z3.simplify(goal)):
-            S.rec(name=on2, kind=kind, functions=s.fnlist, bounds=b2, solver='identical terms (commutative operands ordered; z3 simplifier)', result='unsat', time_s=0.0, status='discharged', mandatory=mandatory); return True
+        return s.decide(on2, goal, hy, kind, b2, rp, timeout, mandatory, solver, (x, y), bool(regs))
+    def decide(s, name, goal, hy, kind, b2, rp, timeout, mandatory, solver, pair, has_regs, final_goal=None):
+        """cheapest first: identical terms, propositional consequence of the hypotheses, a short direct query, structural congruence, the full query (a counterexample is replayed natively)"""
+        S = s.S
+        def ok(solver_, dt=0.0): S.rec(name=name, kind=kind, functions=s.fnlist, bounds=b2, solver=solver_, result='unsat', time_s=round(dt, 3), status='discharged', mandatory=mandatory); return True
+        if z3.is_true(z3.simplify(goal)): return ok('identical terms (commutative operands ordered; z3 simplifier)')
+        if has_regs and prop_implied(hy, goal): return ok('z3 (propositional: the compared terms are the terms of the excluded region)')
         if solver == 'z3':
-            cg = Cong(S, hy, per_query=S.cap(10, 30), budget=timeout)
-            if cg.eq(x, y):
-                S.rec(name=on2, kind=kind, functions=s.fnlist, bounds=b2, solver='z3 (structural congruence: %d lemma(s), common subterms generalised)' % cg.lemmas, result='unsat', time_s=round(cg.time, 3), status='discharged', mandatory=mandatory)
-                return True
-        r, m = S.prove(on2, goal, hy, timeout=timeout, solver=solver, kind=kind, functions=s.fnlist, bounds=b2, replay=rp, vars_=s.allvars, mandatory=mandatory)
+            r, m, dt, used = S.query(list(hy) + [z3.Not(goal)], 3, 'z3', s.allvars)
+            if r == 'unsat': return ok(used, dt)
+            if r == 'unknown' and pair is not None:
+                cg = Cong(S, hy, per_query=S.cap(10, 30), budget=timeout)
+                if cg.eq(*pair): return ok('z3 (structural congruence: %d lemma(s), common subterms generalised)' % cg.lemmas, cg.time)
+        r, m = S.prove(name, goal if final_goal is None else final_goal, hy, timeout=timeout, solver=solver, kind=kind, functions=s.fnlist, bounds=b2, replay=rp, vars_=s.allvars, mandatory=mandatory)
         return r == 'unsat'
 
 def check_pair(S, ua, ub, fn, tag, isas):
@@ -543,7 +581,7 @@ def check_pair(S, ua, ub, fn, tag, isas):
         try: er.append(el + (E.fp(a.fp), E.fp(b.fp)))
         except (Unsupported, z3.Z3Exception, AttributeError) as e: bits.append(el)       # the code relies on rounding itself (magic-number tricks) or on bit patterns: compared bit-precisely instead
     for oi, i, c, on, a, b, x, y in bits:
-        pr.prove_eq(on + '.bits', x, y, oi, i, timeout=S.cap(60, 180), what='[bit-identical; rounding erasure not applicable]')
+        pr.prove_eq(vname(on, 'bits'), x, y, oi, i, timeout=S.cap(60, 180), what='[bit-identical; rounding erasure not applicable]')
     if er:
         hy = [h for h in pr.hyps if not _mentions_fp(h)] + list(E.axioms) + ([z3.Not(z3.Or(*E.domain))] if E.domain else [])
         rn = RatNorm(E.axioms)
@@ -561,10 +599,10 @@ def check_pair(S, ua, ub, fn, tag, isas):
         for oi, i, c, on, a, b, x, y, ea, eb in er:
             b2 = pr.binfo + ' [rounding-erased equality]'; t0 = time.time()
             if rn.equal(ea, eb):
-                S.rec(name=on + '.real', kind='diff', functions=pr.fnlist, bounds=b2, solver='rational-function normal form (exact polynomial arithmetic over the erased term)', result='unsat', time_s=round(time.time() - t0, 3), status='discharged', mandatory=mand)
+                S.rec(name=vname(on, 'real'), kind='diff', functions=pr.fnlist, bounds=b2, solver='rational-function normal form (exact polynomial arithmetic over the erased term)', result='unsat', time_s=round(time.time() - t0, 3), status='discharged', mandatory=mand)
                 continue
             def rp(m, oi=oi, i=i): return pr.replay_vals(erased_inputs(m), oi, i, tol=2e-3 if ct_bits(c) == 32 else 1e-6)
-            S.prove(on + '.real', ea == eb, hy, timeout=S.cap(40, 120), solver='z3', kind='diff', functions=pr.fnlist, bounds=b2, replay=rp, mandatory=mand)
+            S.prove(vname(on, 'real'), ea == eb, hy, timeout=S.cap(40, 120), solver='z3', kind='diff', functions=pr.fnlist, bounds=b2, replay=rp, mandatory=mand)
         if E.approx_ufs:
             S.rec(name=pr.nm + '.no-approx', kind='structure', functions=pr.fnlist, bounds=pr.binfo, solver='term DAG inspection', result='sat', time_s=0.0, status='counterexample', mandatory=mand,
                   note='hardware approximation %s reachable from a non-lowp result' % sorted(E.approx_ufs))
@@ -592,11 +630,7 @@ def check_decisions(S, pr, rest):
         pr.probe(on, regs, [a != bt, z3.Not(same_out)], None, None, S.cap(40, 60))
         hy = pr.hyps + [z3.Not(reg) for _, _, reg in regs]
         on2 = on + ('.outside-known' if regs else ''); b2 = pr.binfo + ' [branch decision: %s]' % bt.decl().name() + ('; excluding known-finding regions ' + ','.join(k for k, _, _ in regs) if regs else '')
-        cg = Cong(S, hy, per_query=S.cap(15, 40), budget=S.cap(60, 180))
-        if cg.eq(a, bt):
-            S.rec(name=on2, kind='decision', functions=pr.fnlist, bounds=b2, solver='z3 (structural congruence: %d lemma(s), common subterms generalised)' % cg.lemmas, result='unsat', time_s=round(cg.time, 3), status='discharged', mandatory=True)
-            continue
-        S.prove(on2, z3.Or(a == bt, same_out), hy, timeout=S.cap(60, 180), kind='decision', functions=pr.fnlist, bounds=b2, replay=rp, vars_=pr.allvars)
+        pr.decide(on2, a == bt, hy, 'decision', b2, rp, S.cap(60, 180), True, 'z3', (a, bt), bool(regs), final_goal=z3.Or(a == bt, same_out))
     if n == 0:
         S.rec(name=pr.nm + '.decision', kind='decision', functions=pr.fnlist, bounds=pr.binfo + ' [branch decisions]', solver='identical terms (commutative operands ordered)', result='unsat', time_s=0.0, status='discharged', mandatory=True,
               note='%d comparison atoms, each the same IEEE term in both builds' % len(B))
@@ -608,7 +642,7 @@ def check_lowp(S, pr, rest):
     for oi, i, c, on, a, b, x, y in rest:
         try: ea, eb = E.fp(a.fp), E.fp(b.fp)
         except (Unsupported, z3.Z3Exception, AttributeError) as e:
-            S.rec(name=on + '.lowp', kind='encode', result='unsupported', status='not-encoded', note=str(e)[:200], mandatory=True, functions=pr.fnlist); S.inconclusive.append('%s.lowp [not encoded: %s]' % (on, str(e)[:100])); continue
+            S.rec(name=vname(on, 'lowp'), kind='encode', result='unsupported', status='not-encoded', note=str(e)[:200], mandatory=True, functions=pr.fnlist); S.inconclusive.append('%s [not encoded: %s]' % (vname(on, 'lowp'), str(e)[:100])); continue
         ax = []; pos = []
         for t in subterms(eb).values():
             if z3.is_app(t) and t.decl().kind() == z3.Z3_OP_UNINTERPRETED and t.num_args() == 1 and t.decl().name() in ('R_x86_rcp', 'R_x86_rsqrt'):
@@ -620,7 +654,7 @@ def check_lowp(S, pr, rest):
             pr.prove_eq(on, x, y, oi, i); continue
         hy = list(E.axioms) + ([z3.Not(z3.Or(*E.domain))] if E.domain else []) + ax + pos
         d = ea - eb; goal = z3.And(d <= TOL * z3.If(ea >= 0, ea, -ea), -d <= TOL * z3.If(ea >= 0, ea, -ea))
-        S.prove(on + '.lowp', goal, hy, timeout=S.cap(40, 120), solver='z3', kind='lowp-accuracy', functions=pr.fnlist,
+        S.prove(vname(on, 'lowp'), goal, hy, timeout=S.cap(40, 120), solver='z3', kind='lowp-accuracy', functions=pr.fnlist,
                 bounds=pr.binfo + ' [rounding-erased; rcpps/rsqrtps per SDM: relative error <= 1.5*2^-12 on positive arguments; claim: |simd - pure| <= 2^-11 |pure|; approximated arguments > 0]')
     S.rec(name=pr.nm + '.approx-only-lowp', kind='structure', functions=pr.fnlist, bounds=pr.binfo, solver='term DAG inspection', result='unsat', time_s=0.0, status='discharged', mandatory=True, note='approximation intrinsics occur in a lowp result only')
 
